@@ -346,6 +346,30 @@ def r17_get_mut(body, log):
     return body
 
 
+def r13g_get_or_insert_with(body, log):
+    """R13g: `*X.get_or_insert_with(|| E)` -> match on X (definition of the combinator; payload is Copy)."""
+    n = 0
+    while True:
+        mb = mask(body)
+        m = re.search(r'\*(\w+)\s*\.get_or_insert_with\(', mb)
+        if not m:
+            break
+        po = m.end() - 1
+        pc = match_close(mb, po)
+        clos = body[po + 1:pc].strip()
+        cm = re.match(r'\|\|\s*(.*)$', clos, re.S)
+        if not cm:
+            raise ExtractError("R13g: get_or_insert_with argument is not a `|| expr` closure")
+        x = m.group(1)
+        e = cm.group(1).strip()
+        rep = f"match {x} {{ Some(__v) => __v, None => {{ let __v = {e}; {x} = Some(__v); __v }} }}"
+        body = body[:m.start()] + rep + body[pc + 1:]
+        n += 1
+    if n:
+        log.append(f"R13g `*x.get_or_insert_with(|| e)` -> match (definition of the combinator) ({n}x)")
+    return body
+
+
 def r18_vec_set(body, log):
     pat = re.compile(r'(?m)^([ \t]*)(' + PATH + r')\[([^\]\n]+)\] = ([^;\n]+);')
     n = len(pat.findall(body))
@@ -554,6 +578,8 @@ def extract_fn(repo, fnspec):
         body = r13p_clone_from(body, log)
     if 'R17' in rules:
         body = r17_get_mut(body, log)
+    if 'R13g' in rules:
+        body = r13g_get_or_insert_with(body, log)
     if 'R18' in rules:
         body = r18_vec_set(body, log)
     for d in fnspec.get('directives', []):
